@@ -29,3 +29,7 @@ mod utils;
 mod ffi;
 
 pub mod data_types;
+
+#[cfg(anoncreds_verif)]
+#[doc(hidden)]
+pub mod verif;
